@@ -1,2 +1,103 @@
-//! Harnesses for property C22 (see /verif/properties.jsonl).
+//! Harnesses for property C22 (see /verif/properties.jsonl): no datagram crashes the server.
+//!
+//! All server harnesses of C15/C16/C21 run with Kani's panic / arithmetic overflow / bounds /
+//! unwrap checks on. `c22_any` is the widest unstructured one: U(56) bytes (so that NTPv5
+//! datagrams carry up to two 4-byte or one 8-byte extension field, including an NTS-encrypted
+//! field with empty nonce/ciphertext), any client, any policy, any cache pre-state, any buffer
+//! length 0..=128 (not only request-sized), any synchronisation state within the stated
+//! invariants. `c22_encode_dispersion` covers the floating-point part of a time answer
+//! separately (root dispersion -> wire format).
+use crate::common::*;
 use crate::stubs;
+use ntp_proto::verif::{server as sh, time_types as tt};
+use ntp_proto::*;
+use std::net::{IpAddr, Ipv4Addr, Ipv6Addr};
+use std::time::Duration;
+
+#[cfg(kani)]
+fn any_datagram(request_sized: bool) {
+    stubs::symbolic_clock();
+    stubs::symbolic_rng();
+    let cache: usize = kani::any();
+    kani::assume(cache <= 1);
+    let cfg = any_cfg(any_nets(), any_nets(), cache);
+    let info = any_server_info();
+    let now: u64 = kani::any();
+    let recv: u64 = kani::any();
+    let fam: u8 = kani::any();
+    kani::assume(fam <= 2);
+    let cb: [u8; 16] = kani::any();
+    let msg: [u8; 56] = kani::any();
+    let len: usize = kani::any();
+    kani::assume(len <= 56);
+    let blen: usize = kani::any();
+    kani::assume(blen <= 128);
+    if request_sized {
+        kani::assume(blen == len);
+    }
+    let seeded: bool = kani::any();
+    let pfam: u8 = kani::any();
+    kani::assume(pfam <= 2);
+    let pb: [u8; 16] = kani::any();
+    let client = client_addr(fam, cb);
+    let mut server = build_server(&cfg, SymClock { now: tt::ts_from_raw(now) }, info, zero_keyset());
+    if seeded && cache == 1 {
+        sh::server_cache_set_slot(&mut server, 0, Some((client_addr(pfam, pb), stubs::make_instant(0, 0))));
+    }
+    let mut stats = RecStats::new();
+    let mut buf = [0u8; 128];
+    let act = server.handle(client, tt::ts_from_raw(recv), &msg[..len], &mut buf[..blen], &mut stats);
+    // reaching this point = handle() returned normally
+    let out = outcome(&act);
+    check_stats!(stats, out);
+    if out.kind.is_some() {
+        assert!(out.resp_len <= blen, "response lies inside the caller's buffer");
+    }
+    let vn = if len > 0 { (msg[0] >> 3) & 7 } else { 0 };
+    kani::cover!(out.kind == Some(Kind::Time), "time answer");
+    kani::cover!(out.kind == Some(Kind::DenyKiss), "deny kiss");
+    kani::cover!(out.kind == Some(Kind::NakKiss) && vn == 5, "NTPv5 NAK for an empty encrypted field");
+    kani::cover!(out.kind.is_none() && len == 56 && vn == 5 && stats.reason == ServerReason::ParseError, "56-byte NTPv5 datagram rejected by the parser");
+    kani::cover!(out.kind.is_none() && len == 56 && vn == 4 && stats.reason == ServerReason::ParseError && (msg[0] & 7) != 3, "56-byte NTPv4 non-client datagram ignored");
+    kani::cover!(out.kind == Some(Kind::Time) && len == 56, "56-byte request (8-byte MAC) answered");
+    kani::cover!(out.kind.is_none() && stats.reason == ServerReason::InternalError, "answer did not fit");
+    kani::cover!(len == 0, "empty datagram");
+    std::mem::forget(server);
+}
+
+srv_harness! {
+    #[kani::unwind(5)]
+    fn c22_any() {
+        // the daemon's call shape: send buffer as long as the datagram
+        any_datagram(true);
+    }
+}
+
+srv_harness! {
+    #[kani::unwind(5)]
+    fn c22_any_buffer() {
+        // any send buffer length 0..=128
+        any_datagram(false);
+    }
+}
+
+/// The only floating-point computation in a time answer: root dispersion = sqrt(polynomial in
+/// the time since the variance base) -> NtpDuration::from_seconds -> 16.16 / time32 wire format.
+/// sqrt yields a non-negative number, +inf or NaN; the wire encoders `assert!` non-negativity.
+/// Dev-only checks excluded by assumption: from_seconds' debug_assert (NaN/inf) and
+/// to_bits_short's debug_assert (> 65535 s); release saturates / maps NaN to 0.
+#[kani::proof]
+fn c22_encode_dispersion() {
+    let x: f64 = kani::any();
+    kani::assume(x >= 0.0 && x < 65535.0);
+    let d = NtpDuration::from_seconds(x);
+    assert!(tt::dur_raw(d) >= 0, "dispersion of a non-negative float is non-negative");
+    let s = tt::dur_to_bits_short(d);
+    let t = tt::dur_to_bits_time32(d);
+    // value oracle: the 16.16 encoding is the integer part and the top 16 fraction bits
+    let secs = u16::from_be_bytes([s[0], s[1]]);
+    assert!(secs as f64 <= x && x < secs as f64 + 1.0, "16.16 seconds field is floor(x)");
+    kani::cover!(secs == 65534, "large dispersion");
+    kani::cover!(x > 0.0 && secs == 0 && s[2] == 0 && s[3] == 0, "tiny dispersion rounds to zero");
+    kani::cover!(u32::from_be_bytes(t) == u32::MAX, "time32 saturates at 16 s");
+}
